@@ -68,6 +68,7 @@ fn main() {
                 "training" => training::record_training(seed, tier, &mut trace, &mut rep),
                 "threads" => training::record_threads(seed, tier, &mut trace, &mut rep),
                 "optslots" => training::record_optslots(seed, tier, &mut trace, &mut rep),
+                "net" => netcase::record_net(seed, tier, &mut trace, &mut rep),
                 "randomsweep" => random::sweep(&mut rep, if tier == "thorough" { 1 } else { 4099 }),
                 _ => panic!("unknown record group {}", group),
             }
